@@ -33,6 +33,12 @@ _H = [
     ("option_contract", "Option <-> DiplomatOption: is_ok == is_some, round trip identity, payload dropped exactly once", [F_FROM_OPT, F_INTO_OPT, F_INTO_OPTION], 2, ["C03", "C10"]),
     ("into_converted_option_contract", "into_converted_option: converts payload, drops nothing", [F_INTO_CONV], None, ["C03"]),
     ("option_box_memsafe", "Option<Box> round trip memory safe", [F_FROM_OPT, F_INTO_OPT], None, ["C03"]),
+    ("lifecycle_plain_ok_glue_err", "Result<Plain,Glue>: dropped as DiplomatResult or converted back and dropped - live arm's payload dropped exactly once, never leaked or double dropped (drop glue on the Err arm only)", [F_FROM_RES, F_INTO_RES, F_DROP], 4, ["C03"]),
+    ("lifecycle_glue_ok_plain_err", "same, drop glue on the Ok arm only", [F_FROM_RES, F_INTO_RES, F_DROP], 4, ["C03"]),
+    ("lifecycle_unit_ok_glue_err", "same, Result<(), Glue> (unit Ok arm, as produced for Result<(), E> returns)", [F_FROM_RES, F_INTO_RES, F_DROP], 4, ["C03"]),
+    ("lifecycle_glue_ok_unit_err", "same, Result<Glue, ()> (the DiplomatOption shape)", [F_FROM_RES, F_INTO_RES, F_DROP], 4, ["C03"]),
+    ("lifecycle_plain_plain", "same, no drop glue at all: nothing dropped", [F_FROM_RES, F_INTO_RES, F_DROP], 4, ["C03"]),
+    ("lifecycle_glue_glue", "same, drop glue on both arms", [F_FROM_RES, F_INTO_RES, F_DROP], 4, ["C03"]),
     ("wire_encoding_primitives", "{payload,is_ok}: flag offset = max payload size rounded, size/align per repr(C), unit arms occupy no payload, round trip identity on (arm,payload) for 11 (T,E) pairs", [F_FROM_RES, F_INTO_RES], None, ["C10", "C01"]),
     ("wire_option_flag", "DiplomatOption<u32/u64>: is_ok == is_some and round trip", [F_FROM_OPT, F_INTO_OPT], None, ["C10"]),
     ("wire_pointer_niche", "Option<&T>/Option<Box<T>>: None is the null pointer, Some is non-null, pointer sized", [], None, ["C10"]),
